@@ -202,15 +202,13 @@ def fdUnaryGeneric (d : Dom) : R := .ok ⟨d.dtype, d.shape⟩
 /-- `_find_domain_log_exp` -/
 def fdLogExp (d : Dom) : R := .ok ⟨.real, d.shape⟩
 
-def boolSubstrings : List String := ["", "b", "o", "l", "bo", "oo", "ol", "boo", "ool", "bool"]
-
-/-- `_find_domain_astype` (`x in ("bool")` is a substring test in Python) -/
+/-- `_find_domain_astype` -/
 def fdAstype (ps : Params) (d : Dom) : R :=
   match lookup ps "dtype" with
   | Option.none => .error .key
   | some (.str s) =>
     if s ∈ ["float", "double", "float32", "float64"] then .ok ⟨.real, d.shape⟩
-    else if s ∈ boolSubstrings then .ok ⟨.bint 2, d.shape⟩
+    else if s = "bool" then .ok ⟨.bint 2, d.shape⟩
     else if s ∈ ["int", "int8", "int16", "int32", "int64", "uint8"] then .ok ⟨d.dtype, d.shape⟩
     else .error .notImpl
   | some _ => .error .notImpl
